@@ -5,7 +5,10 @@ correspondence against package main of /repo through the overlay line driver
 harness/overlay/server/zz_verif_c19_test.go.  Stateful layer (coq/Sys/TagState.v,
 TagStateProofs.v): scenarios of {set tags} / {get tags} / new topic / new account /
 unload / server-side tag changes on real 'me' and group topics above memverif,
-driver harness/overlay/server/zz_verif_c19x_test.go (request kind TS)."""
+driver harness/overlay/server/zz_verif_c19x_test.go (request kind TS).  Search layer
+(coq/Sys/FndSearchC19.v, FndSearchC19Proofs.v): rewriteTag with the real validators /
+authenticator and whole searches on a real 'fnd' topic, driver
+harness/overlay/server/zz_verif_c19fnd_test.go (request kinds O, WR, QR, FS)."""
 import bisect
 import itertools
 import os
@@ -140,8 +143,9 @@ def ref_lex(q):
     return items
 
 
-def ref_parse(query, wl):
+def ref_parse(query, wl, rewrite=None):
     """('err', reason) or ('ok', and, or)"""
+    rewrite = rewrite or ref_rewrite
     q = UNI.trim(query)
     items = ref_lex(q)
     if items is None:
@@ -162,7 +166,7 @@ def ref_parse(query, wl):
         if not v:
             continue
         orig = UNI.lower(v)
-        rw = ref_rewrite(orig, wl)
+        rw = rewrite(orig, wl)
         if not rw:
             continue
         terms = [orig] + ([rw] if rw != orig else [])
@@ -631,6 +635,481 @@ def ts_monitor(case, out):
 
 
 
+# ---- SEARCH layer (request kinds O / WR / QR / FS of handler c19f; model coq/Sys/FndSearchC19.v) ----
+ORACLE = {}          # (cc key, lower-cased term) -> (email.PreCheck, tel.PreCheck, basic.AsTag, other authenticators' AsTag)
+CCS = ["US", "DE", "-"]
+# A cc key is the country code, optionally followed by "@" and the configuration of the driver process that serves
+# the request: which of e(mail validator) t(el validator) b(asic authenticator) index (add_to_tags); none = all three.
+F_CFGS = ["e-b", "-t-"]
+
+
+def f_cfg(cckey):
+    return cckey.split("@", 1)[1] if "@" in cckey else "etb"
+
+
+def f_cfg_of_line(l):
+    w = l.split()
+    return f_cfg(w[3] if w[0] == "FS" else w[1])
+F_PLAIN = ["travel", "flowers", "Chess", "x", "new_york"]
+F_EMAIL = ["alice@example.com", "Bob@Example.COM"]
+F_PHONE_DIGITS = ["6502530000", "650.253.0000", "01711234567", "2125550123"]
+F_PHONE_PLUS = ["+16502530000", "+491711234567"]
+F_LOGIN = ["alice", "bob_99", "12345", "al"]
+F_QUOTED = ['"alice"', '"new york"', '"6502530000"', '"travel,fun"', '"Travel"', '""']
+F_RESERVED = ["basic:alice", "email:alice@example.com", "tel:+16502530000", "tel:+14155550000"]
+F_JUNK = ["a$b", "éa", "-ab", "#tag", "a:b"]
+F_FOREIGN_BODY = ["rival", "acme2", "x"]
+F_SEPS = [" ", ",", ", ", " ,", " , ", "  ", "\t"]
+F_MASKED = [["org"], ["org"], ["org", "dept"], ["tel"], ["email", "tel"], ["basic"], []]
+F_OWN_BY_NS = {"org": ["org:acme", "org:a_b"], "dept": ["dept:r_d"], "tel": ["tel:+16502530000"],
+               "email": ["email:alice@example.com"], "basic": ["basic:alice"]}
+# what a term becomes when it is rewritten: the tags that make candidates findable
+F_CAND_TAGS = ["travel", "flowers", "chess", "alice", "basic:alice", "basic:travel", "tel:+16502530000", "tel:+491711234567",
+               "email:alice@example.com", "email:bob@example.com", "basic:6502530000", "basic:12345", "org:acme", "org:rival",
+               "dept:r_d", "6502530000", "new_york", "basic:bob_99", "x"]
+
+
+def f_foreign(rng, masked, own):
+    ns = rng.choice(masked) if masked else "org"
+    if ns == "tel":
+        t = rng.choice(["tel:+14155550000", "tel:+491711234567"])
+    elif ns == "email":
+        t = "email:bob@example.com"
+    else:
+        t = ns + ":" + rng.choice(F_FOREIGN_BODY)
+    t = t if t not in own else ns + ":zz"
+    if rng.random() < 0.12 and not t.startswith("tel:"):
+        t = t.title() if rng.random() < 0.5 else t.upper()      # lower-cased by the parser before anything else
+    return t
+
+
+def f_term(rng, masked, own, kind=None):
+    k = kind or rng.choice(["plain", "plain", "email", "digits", "plus", "login", "quoted", "own", "foreign", "foreign", "reserved", "junk"])
+    if k == "plain":
+        return rng.choice(F_PLAIN)
+    if k == "email":
+        return rng.choice(F_EMAIL)
+    if k == "digits":
+        return rng.choice(F_PHONE_DIGITS)
+    if k == "plus":
+        return rng.choice(F_PHONE_PLUS)
+    if k == "login":
+        return rng.choice(F_LOGIN)
+    if k == "quoted":
+        return rng.choice(F_QUOTED)
+    if k == "own":
+        mo = [t for t in own if UNI.prefixed_ns(t) in masked]
+        return rng.choice(mo) if mo else rng.choice(own or ["travel"])
+    if k == "foreign":
+        t = f_foreign(rng, masked, own)
+        return '"%s"' % t if rng.random() < 0.15 else t
+    if k == "reserved":
+        return rng.choice(F_RESERVED)
+    return rng.choice(F_JUNK)
+
+
+F_KINDS = ["plain", "email", "digits", "plus", "login", "quoted", "own", "foreign", "reserved", "junk"]
+
+
+def f_query(rng, masked, own):
+    r = rng.random()
+    if r < 0.04:
+        return rng.choice(["", " ", "␡", '"', 'a"b', "a,,b", '"a"b', ", ,"])
+    n = rng.choice([1, 1, 2, 2, 2, 3, 3, 4])
+    parts = []
+    for i in range(n):
+        parts.append(f_term(rng, masked, own))
+        if i + 1 < n:
+            parts.append(rng.choice(F_SEPS))
+    if rng.random() < 0.12:
+        parts.append(rng.choice([",", " ", ", "]))
+    if rng.random() < 0.06:
+        parts.insert(0, rng.choice([",", " "]))
+    q = "".join(parts)
+    if rng.random() < 0.05:
+        q = q.replace(",", ",,", 1) if "," in q else q + '"'
+    return q
+
+
+def fq(q):
+    """a query inside a request: ~ absent, _ empty"""
+    if q is None:
+        return "~"
+    return q.encode("utf-8").hex() if q else "_"
+
+
+def unfq(h):
+    return None if h == "~" else ("" if h in ("_", "-") else bytes.fromhex(h).decode("utf-8", errors="replace"))
+
+
+def fs_line(masked, own, cc, cands, ops):
+    cs = ";".join("%d.%s.%d.%s" % (i, k, st, enc_list(l)) for (i, k, st, l) in cands) or "-"
+    return "FS %s %s %s %s %s" % (enc_list(masked), enc_list(own), cc, cs, "/".join(ops) or "-")
+
+
+def f_cands(rng, own, extra=()):
+    cands = []
+    pool = F_CAND_TAGS + list(extra)
+    for i in range(1, rng.randrange(4, 8)):
+        tags = sorted(set(rng.choice(pool) for _ in range(rng.randrange(1, 4))))
+        st = rng.choice([0, 0, 0, 1, 2])
+        cands.append((i, rng.choice("ut"), st, tags))
+    return cands
+
+
+def f_own(rng, masked):
+    own = [rng.choice(["flowers", "travel", "alice"])]
+    for ns in masked:
+        if rng.random() < 0.8:
+            own.append(rng.choice(F_OWN_BY_NS.get(ns, [ns + ":own"])))
+    if rng.random() < 0.3:
+        own.append(rng.choice(["basic:alice", "tel:+16502530000", "org:acme"]))
+    return sorted(set(own))
+
+
+def gen_search_scenario(rng):
+    masked = rng.choice(F_MASKED)
+    own = f_own(rng, masked)
+    cc = rng.choice(["US", "US", "US", "DE", "-"])
+    cands = f_cands(rng, own, extra=own)
+    ops = []
+    for _ in range(rng.randrange(2, 6)):
+        s = rng.choice([1, 1, 1, 2, 3])
+        q = f_query(rng, masked, own)
+        k = rng.random()
+        if k < 0.45:
+            ops.append("d.%d.%s.~" % (s, fq(q)))
+        elif k < 0.85:
+            ops.append("d.%d.~.%s" % (s, fq(q)))
+        else:
+            ops.append("d.%d.%s.%s" % (s, fq(f_query(rng, masked, own)), fq(q)))
+        ops.append("g.%d" % s)
+        r = rng.random()
+        if r < 0.3:
+            ops.append("g.%d" % rng.choice([1, 2, 3]))
+        elif r < 0.4:
+            ops.append("t")
+            ops.append("g.%d" % s)
+        elif r < 0.47:
+            ops.append("u")
+            ops.append("g.%d" % s)
+        elif r < 0.52:
+            ops.append("d.%d.%s.~" % (s, fq("␡")))
+            ops.append("g.%d" % s)
+    return fs_line(masked, own, cc, cands, ops)
+
+
+def fs_corner_cases(rng, quick):
+    """the cross product asked for: a masked term (own / foreign) next to a term of every kind, in an AND and in an OR
+    position, first and second, as the public and as the private query, from an ordinary and from the root session,
+    with the topic holding no tags (as loaded) and then the user's tags"""
+    cases = []
+    masked, own = ["org"], ["flowers", "org:acme"]
+    cands = [(1, "u", 0, ["travel", "org:rival"]), (2, "u", 1, ["travel", "basic:alice"]), (3, "t", 0, ["org:acme", "tel:+16502530000"]),
+             (4, "t", 2, ["travel", "org:rival"]), (5, "u", 0, ["basic:alice", "email:alice@example.com"]), (6, "u", 2, ["org:acme"]),
+             (7, "t", 1, ["flowers", "basic:6502530000"]), (8, "t", 0, ["tel:+16502530000"])]
+    partner = {"plain": "travel", "email": "alice@example.com", "digits": "6502530000", "plus": "+16502530000", "login": "alice",
+               "quoted": '"flowers"', "own": "org:acme", "foreign": "org:rival", "reserved": "basic:alice", "junk": "a$b"}
+    combos = []
+    for m in ("org:acme", "org:rival", '"org:rival"'):
+        for kind in F_KINDS:
+            for sep in (" ", ",", ", "):
+                for first in (0, 1):
+                    combos.append((m, kind, sep, first))
+    if quick:
+        combos = rng.sample(combos, 60)
+    for m, kind, sep, first in combos:
+        p = partner[kind]
+        q = (m + sep + p) if first else (p + sep + m)
+        src = rng.choice([0, 1])
+        s = rng.choice([1, 1, 3])
+        d = "d.%d.%s.~" % (s, fq(q)) if src == 0 else "d.%d.~.%s" % (s, fq(q))
+        ops = [d, "g.%d" % s, "t", "g.%d" % s, "g.%d" % (3 if s == 1 else 1)]
+        cases.append(fs_line(masked, own, "US", cands, ops))
+    # single terms and three-term lists
+    for q in ("org:rival", "org:rival,", ",org:rival", "travel,org:rival", "flowers travel, org:rival", "travel org:rival",
+              "travel,org:acme", "org:acme", "travel", "alice,6502530000", "flowers 650.253.0000", "6502530000"):
+        for s in (1, 3):
+            ops = ["d.%d.~.%s" % (s, fq(q)), "g.%d" % s, "d.%d.%s.~" % (s, fq(q)), "g.%d" % s, "t", "g.%d" % s, "u", "g.%d" % s]
+            cases.append(fs_line(masked, own, "US", cands, ops))
+    return cases
+
+
+def f_real_rewrite(cc):
+    def rw(t, wl):
+        if UNI.prefixed_ns(t) is not None:
+            return t
+        o = ORACLE.get((cc, t))
+        if o is None:
+            return None
+        vals = [x for x in o[:2] if x]
+        if len(set(vals)) > 1:
+            return None         # two validators claim the term: the order of a Go map decides, nothing to demand
+        if vals:
+            return vals[0]
+        if wl:
+            au = [x for x in o[2:] if x]
+            if len(set(au)) > 1:
+                return None
+            if au:
+                return au[0]
+        return t if UNI.body_ok(t) else ""
+    return rw
+
+
+class Undecided(Exception):
+    pass
+
+
+def f_ref_parse(query, wl, cc):
+    """documented reading of a query with the rewriters configured in the driver; None when the oracle has no
+    answer for one of its terms (nothing is demanded then)"""
+    base = f_real_rewrite(cc)
+
+    def rw(t, w):
+        r = base(t, w)
+        if r is None:
+            raise Undecided()
+        return r
+    try:
+        return ref_parse(query, wl, rw)
+    except Undecided:
+        return None
+
+
+def f_terms_of(query):
+    """lower-cased terms of a query (what rewriteTag is asked about)"""
+    its = ref_lex(UNI.trim(query))
+    if its is None:
+        # unterminated quote: the parser still rewrites the terms before it
+        its = ref_lex(UNI.trim(query).replace('"', " ")) or []
+    return [UNI.lower(v) for k, v in its if k != "sep" and v]
+
+
+def f_oracle_needs(lines):
+    need = []
+    for l in lines:
+        w = l.split()
+        if w[0] == "WR":
+            need.append((w[1], unhx(w[3])))
+            need.append((w[1], UNI.lower(unhx(w[3]))))
+        elif w[0] == "QR":
+            need += [(w[1], t) for t in f_terms_of(unhx(w[3]))]
+        elif w[0] == "FS":
+            cc = w[3]
+            for op in ([] if w[5] == "-" else w[5].split("/")):
+                f = op.split(".")
+                if f[0] == "d":
+                    for h in f[2:4]:
+                        q = unfq(h)
+                        if q:
+                            need += [(cc, t) for t in f_terms_of(q)]
+    return [k for k in dict.fromkeys(need) if k not in ORACLE and k[1]]
+
+
+def f_parse_calls(s):
+    """recorded store calls of one step: [(method, req, opt, active)]"""
+    res = []
+    if s == "-":
+        return res
+    for c in s.split("&"):
+        f = c.split("!")
+        if len(f) != 4:
+            return None
+        req = [] if f[1] == "-" else [[unhx(h) for h in g.split("+")] for g in f[1].split(";")]
+        opt = [] if f[2] == "-" else [unhx(h) for h in f[2].split(",")]
+        res.append((f[0], req, opt, f[3] == "1"))
+    return res
+
+
+def fs_parse(case, out):
+    w = case.split()
+    masked, own, cc = dec_list(w[1]), dec_list(w[2]), w[3]
+    cands = {0: ("u", 0, own)}
+    if w[4] != "-":
+        for c in w[4].split(";"):
+            f = c.split(".")
+            cands[int(f[0])] = (f[1], int(f[2]), dec_list(f[3]))
+    ops = [] if w[5] == "-" else w[5].split("/")
+    outs = out[3:].split("/") if out.startswith("FS ") and len(out) > 3 else []
+    if len(outs) != len(ops):
+        return masked, own, cc, cands, None
+    steps = []
+    for op, o in zip(ops, outs):
+        f = o.split("|")
+        if len(f) != 3:
+            return masked, own, cc, cands, None
+        st = f[2].split("!")
+        if len(st) != 3:
+            return masked, own, cc, cands, None
+        steps.append((op, f[0], f_parse_calls(f[1]), dec_list(st[0]), [unfq(h) for h in st[1].split(",")], unfq(st[2])))
+    return masked, own, cc, cands, steps
+
+
+def f_show_op(op):
+    f = op.split(".")
+    if f[0] == "d":
+        return "{set desc public=%r private=%r} from session %s%s" % (unfq(f[2]), unfq(f[3]), f[1], " (root)" if f[1] == "3" else "")
+    if f[0] == "g":
+        return "{get what=sub} from session %s%s" % (f[1], " (root)" if f[1] == "3" else "")
+    return {"u": "unload the fnd topic", "t": "Topic.tags := the user's stored tags"}[f[0]]
+
+
+def f_reading_diff(exp, req, opt):
+    """which law a wrong reading breaks: only the rewritten spellings differ, or the interpretation"""
+    same_first = [g[0] for g in exp[1]] == [g[0] for g in req if g]
+    if same_first and len(exp[1]) == len(req):
+        return "search-terms-rewritten-by-precedence"
+    return "search-terms-as-documented"
+
+
+def fs_monitor(case, out, table=None):
+    """the search laws of the property evaluated on the implementation's trace of one scenario; a failure is
+    reported on the scenario cut after the failing request (what the implementation answered up to there is a
+    prefix of its answer: a step depends on the earlier steps only)"""
+    fails = fs_monitor_full(case, out)
+    if not fails or table is None:
+        return fails
+    w = case.split()
+    res = []
+    for law, c, txt in fails:
+        n = int(txt.split()[1])          # "request <n> of the scenario: ..."
+        short = " ".join(w[:5] + ["/".join(w[5].split("/")[:n])])
+        table.setdefault(short, "FS " + "/".join(out[3:].split("/")[:n]))
+        res.append((law, short, txt))
+    return res
+
+
+def fs_monitor_full(case, out):
+    fails = []
+    masked, own, cc, cands, steps = fs_parse(case, out)
+    if steps is None:
+        return fails
+    mset = set(masked)
+    for n, (op, reply, calls, tags, pubs, priv) in enumerate(steps):
+        f = op.split(".")
+        where = "request %d of the scenario: %s -> %s" % (n + 1, f_show_op(op), reply)
+
+        def bad(law, txt):
+            fails.append((law, case, where + ": " + txt))
+        if calls is None:
+            continue
+        # whoever calls the store: a masked-namespace term must be one of the user's own tags
+        for (m, req, opt, active) in calls:
+            for t in [x for g in req for x in g] + opt:
+                if mset and UNI.prefixed_ns(t) in mset and t not in own:
+                    place = "optional (OR) list" if t in opt else "required (AND) groups"
+                    bad("masked-search-terms-are-own-tags", "store.%s called with the masked-namespace term %r in the %s; the user carries %r"
+                        % ("FindUsers" if m == "U" else "FindTopics", t, place, own))
+                    break
+        if f[0] != "g":
+            if fails:
+                break
+            continue
+        s = int(f[1])
+        root = s == 3
+        if not root:
+            for (m, req, opt, active) in calls:
+                if not active:
+                    bad("nonroot-search-active-only", "store.%s called with activeOnly=false for a session that is not root"
+                        % ("FindUsers" if m == "U" else "FindTopics"))
+                    break
+        found = []
+        if reply.startswith("m"):
+            found = [x for x in reply[1:].split(",") if x]
+        if not root:
+            for x in found:
+                if x.isdigit() and int(x) in cands and cands[int(x)][1] != 0:
+                    bad("nonroot-never-shown-inactive", "%s %s (%s, tags %r) is shown to a session that is not root"
+                        % ("account" if cands[int(x)][0] == "u" else "topic", x, "suspended" if cands[int(x)][1] == 1 else "deleted", cands[int(x)][2]))
+                    break
+        # the query that is active for this session, as the topic holds it (printed by the driver)
+        q, wl = (pubs[s - 1], True) if pubs[s - 1] is not None else (priv, False)
+        if q is None or q == "":
+            if fails:
+                break
+            continue
+        exp = f_ref_parse(q, wl, cc)
+        if exp is None:
+            continue
+        if exp[0] == "err":
+            if calls or found or not reply.startswith("c4"):
+                bad("malformed-search-rejected", "malformed query %r (%s) was not rejected: store calls %r" % (q, exp[1], calls))
+        elif exp[1] or exp[2]:
+            for (m, req, opt, active) in calls:
+                if req != exp[1] or opt != exp[2]:
+                    bad(f_reading_diff(exp, req, opt), "query %r (%s, country %s) handed to store.%s as required=%r optional=%r; documented reading required=%r optional=%r"
+                        % (q, "public: logins rewritten" if wl else "private: logins not rewritten", cc, "FindUsers" if m == "U" else "FindTopics", req, opt, exp[1], exp[2]))
+                    break
+            allt = set(x for g in exp[1] for x in g) | set(exp[2])
+            for x in found:
+                if not x.isdigit() or int(x) not in cands:
+                    bad("results-match-query", "result %s is not a row of the scenario" % x)
+                    break
+                ct = set(cands[int(x)][2])
+                if not (ct & allt) or any(g and not (ct & set(g)) for g in exp[1]):
+                    bad("results-match-query", "row %s with tags %r is shown for the query %r (reading required=%r optional=%r)"
+                        % (x, cands[int(x)][2], q, exp[1], exp[2]))
+                    break
+        if fails:
+            break
+    return fails
+
+
+FS_QUICK = 150
+FS_THOROUGH = 4000
+
+
+def gen_search_cases(ctx):
+    rng = ctx.rng
+    quick = ctx.tier == "quick"
+    cases = []
+    # rewriteTag with the real rewriters: every vocabulary term, every country code, with and without logins
+    vocab = F_PLAIN + F_EMAIL + F_PHONE_DIGITS + F_PHONE_PLUS + F_LOGIN + F_RESERVED + F_JUNK + \
+        ["org:acme", "org:rival", "(650) 253-0000", "650-253-0000", "1 650 253 0000", "alice@", "@example.com", "a@b", "99", "0", "12",
+         "1234567", "6502530000x", "x6502530000", "650_253_0000", "+1650253000", "+0000", "00491711234567", "7" * 40, "é@example.com"]
+    for t in vocab:
+        for cc in CCS:
+            for wl in (0, 1):
+                cases.append("WR %s %d %s" % (cc, wl, hx(UNI.lower(t))))
+    for _ in range(300 if quick else 20000):
+        k = rng.random()
+        if k < 0.5:
+            t = "".join(rng.choice("0123456789") for _ in range(rng.randrange(1, 13)))
+            if rng.random() < 0.3:
+                t = "+" + t
+            elif rng.random() < 0.2:
+                t = t[:3] + "." + t[3:]
+        elif k < 0.7:
+            t = "".join(rng.choice("abc019_.") for _ in range(rng.randrange(1, 8)))
+        else:
+            t = UNI.lower(rand_word(rng))
+        if t:
+            cases.append("WR %s %d %s" % (rng.choice(CCS), rng.randrange(2), hx(t)))
+    # parseSearchQuery with the real rewriters: pairs of one term of every kind, AND / OR
+    masked, own = ["org"], ["flowers", "org:acme"]
+    reps = [(k, f_term(rng, masked, own, k)) for k in F_KINDS for _ in range(1 if quick else 3)]
+    for (ka, a) in reps:
+        for (kb, b) in reps:
+            for sep in (" ", ","):
+                cases.append("QR %s %d %s" % (rng.choice(["US", "US", "DE", "-"]), rng.randrange(2), hx(a + sep + b)))
+    for _ in range(500 if quick else 30000):
+        cases.append("QR %s %d %s" % (rng.choice(CCS), rng.randrange(2), hx(f_query(rng, rng.choice(F_MASKED), own))))
+    # the same with a rewriter NOT configured to index: tel off; email and basic off
+    for cfg in F_CFGS:
+        for t in vocab:
+            for cc in (["US"] if quick else ["US", "DE"]):
+                cases.append("WR %s@%s %d %s" % (cc, cfg, 1 if quick else rng.randrange(2), hx(UNI.lower(t))))
+        for (ka, a) in reps:
+            b = rng.choice(reps)[1]
+            cases.append("QR US@%s %d %s" % (cfg, rng.randrange(2), hx(a + rng.choice([" ", ","]) + b)))
+    # whole searches on a real fnd topic
+    cases += fs_corner_cases(rng, quick)
+    for _ in range(FS_QUICK if quick else FS_THOROUGH):
+        cases.append(gen_search_scenario(rng))
+    return cases
+
+
 TS_QUICK = 340
 TS_THOROUGH = 6000
 
@@ -701,6 +1180,8 @@ def gen_cases(ctx):
     cases += ts_corner_cases()
     for _ in range(TS_QUICK if quick else TS_THOROUGH):
         cases.append(gen_scenario(rng))
+    # the search layer: real rewriters, real fnd topic
+    cases += gen_search_cases(ctx)
     return cases
 
 
@@ -760,6 +1241,52 @@ def monitors(cases, t):
                 fails.append(("norm-idempotent", c, "normalising the normalised list changes it: %r -> %r" % (ca, cb)))
         elif w[0] == "TS":
             fails += ts_monitor(c, t[c])
+        elif w[0] == "FS":
+            fails += fs_monitor(c, t[c], t)
+        elif w[0] == "WR":
+            term = unhx(w[3])
+            got = unhx(o[1]) if len(o) > 1 else ""
+            orc = ORACLE.get((w[1], term))
+            if orc is not None and UNI.prefixed_ns(term) is None:
+                want = f_real_rewrite(w[1])(term, w[2] == "1")
+                cfg = f_cfg(w[1])
+                for letter, pfx in (("e", "email:"), ("t", "tel:"), ("b", "basic:")):
+                    if letter not in cfg and got.startswith(pfx):
+                        fails.append(("rewritten-only-when-configured", c,
+                                      "term %r rewritten to %r although %s is not configured to index (add_to_tags off; configuration %s)"
+                                      % (term, got, pfx[:-1], cfg)))
+                if want and want != term and got != want:
+                    who = "validator" if want in orc[:2] else "authenticator"
+                    fails.append(("rewritten-to-prefixed-form-by-precedence", c,
+                                  "term %r (country %s, login rewriting %s) rewritten to %r; the configured rewriters answer email=%r tel=%r basic=%r, so the %s's %r is due (validators first, then authenticators)"
+                                  % (term, w[1], "on" if w[2] == "1" else "off", got, orc[0], orc[1], orc[2], who, want)))
+        elif w[0] == "QR":
+            q = unhx(w[3])
+            ref = f_ref_parse(q, w[2] == "1", w[1])
+            cfg = f_cfg(w[1])
+            spelled = [unhx(h) for g in (o[2].split(";") if len(o) > 3 and o[2] != "-" else []) for h in g.split("+")] + \
+                      [unhx(h) for h in (o[3].split(",") if len(o) > 3 and o[3] != "-" else [])]
+            srcs = set(f_terms_of(q))
+            for letter, pfx in (("e", "email:"), ("t", "tel:"), ("b", "basic:")):
+                extra = [x for x in spelled if x.startswith(pfx) and x not in srcs]
+                if letter not in cfg and extra:
+                    fails.append(("rewritten-only-when-configured", c,
+                                  "query %r: term rewritten to %r although %s is not configured to index (add_to_tags off; configuration %s)"
+                                  % (q, extra[0], pfx[:-1], cfg)))
+            if ref is None:
+                pass
+            elif ref[0] == "err":
+                if o[1] != "err":
+                    fails.append((MALFORMED_LAW[ref[1]], c, "malformed query %r (%s) accepted and read as %s" % (q, ref[1], t[c])))
+            elif o[1] == "err":
+                fails.append(("quoted-term-accepted" if '"' in q else "wellformed-query-accepted", c,
+                              "well-formed query %r rejected; documented reading %s" % (q, fmt_q(ref))))
+            elif t[c].split(" ", 1)[1] != fmt_q(ref).split(" ", 1)[1]:
+                got_and = [] if o[2] == "-" else [[unhx(h) for h in g.split("+")] for g in o[2].split(";")]
+                got_or = [] if o[3] == "-" else [unhx(h) for h in o[3].split(",")]
+                fails.append((f_reading_diff(ref, got_and, got_or).replace("search-terms", "query-terms"), c,
+                              "query %r (country %s, login rewriting %s) read as required=%r optional=%r, documented reading required=%r optional=%r"
+                              % (q, w[1], "on" if w[2] == "1" else "off", got_and, got_or, ref[1], ref[2])))
         elif w[0] == "D":
             # stringSliceDelta sorts its arguments in place (the first one is the topic's cached tag list):
             # whatever it does to them, they must keep their elements
@@ -804,6 +1331,32 @@ def neighbours(ctx, case):
                 res.append("Q %s %s" % (w[1], hx(s[:i] + ch + s[i:])))
             if i < len(s):
                 res.append("Q %s %s" % (w[1], hx(s[:i] + s[i + 1:])))
+    elif w[0] == "QR":
+        q = unhx(w[3])
+        for i in range(len(q) + 1):
+            for ch in [" ", ",", '"', "1", "a"]:
+                res.append("QR %s %s %s" % (w[1], w[2], hx(q[:i] + ch + q[i:])))
+            if i < len(q):
+                res.append("QR %s %s %s" % (w[1], w[2], hx(q[:i] + q[i + 1:])))
+        res.append("QR %s %s %s" % (w[1], "0" if w[2] == "1" else "1", w[3]))
+    elif w[0] == "WR":
+        for cc in CCS:
+            for wl in "01":
+                res.append("WR %s %s %s" % (cc, wl, w[3]))
+    elif w[0] == "FS":
+        ops = [] if w[5] == "-" else w[5].split("/")
+        for i in range(len(ops)):
+            res.append(" ".join(w[:5] + ["/".join(ops[:i] + ops[i + 1:]) or "-"]))
+        for i in range(1, len(ops)):
+            res.append(" ".join(w[:5] + ["/".join(ops[:i])]))
+        # the same queries through the other field / from the other session
+        for i, op in enumerate(ops):
+            f = op.split(".")
+            if f[0] == "d":
+                sw = "d.%s.%s.%s" % (f[1], f[3], f[2])
+                res.append(" ".join(w[:5] + ["/".join(ops[:i] + [sw] + ops[i + 1:])]))
+            elif f[0] == "g":
+                res.append(" ".join(w[:5] + ["/".join(ops[:i] + ["t", op] + ops[i + 1:])]))
     elif w[0] == "TS":
         ops = [] if w[4] == "-" else w[4].split("/")
         for i in range(len(ops)):
@@ -824,6 +1377,10 @@ def nontrivial(case, out):
     w = out.split()
     if case.startswith("TS"):
         return "c200" in out or "c403" in out
+    if case.startswith("FS"):
+        return "U!" in out or "c403" in out
+    if case.startswith("QR"):
+        return len(w) == 4 and w[1] == "ok" and (w[2] != "-" or w[3] != "-")
     if case.startswith("Q"):
         return len(w) == 4 and w[1] == "ok" and (w[2] != "-" or w[3] != "-")
     return not (out.endswith(" -") or out.endswith(" nil") or out.endswith(" 0") or out.endswith(" _"))
@@ -859,27 +1416,73 @@ def run(ctx):
         ctx.violation("corr", "unicode-space-table", "unicode.IsSpace differs from Query.is_space: " + tabd["space"],
                       {"correspondence": "Query.is_space"})
 
+    SEARCH = ("WR ", "QR ", "FS ")
+    opath = os.path.join(ctx.work, "c19oracle.txt")
+    os.environ["VERIF_C19ORACLE"] = opath
+
+    def ask_oracle(lines):
+        """the configured rewriters asked directly about every term of the search requests (request O); the answers
+        instantiate the model's Section variables vals / auths (file read by the runner) and the monitor's reference"""
+        allneed = f_oracle_needs(lines)
+        for cfg in sorted(set(f_cfg(cc) for cc, _ in allneed)):
+            need = [(cc, t) for cc, t in allneed if f_cfg(cc) == cfg]
+            rc, out, err = ctx.run_main_lines("c19f", ["CFG " + cfg] + ["O %s %s" % (cc, hx(t)) for cc, t in need])
+            if rc != 0 or len(out) != len(need) + 1:
+                return rc or 1, err
+            for (cc, t), o in zip(need, out[1:]):
+                f = o.split()
+                if len(f) == 5 and f[0] == "O":
+                    v = [unhx(h) for h in f[1:]]
+                    # a validator that is not configured with add_to_tags is not among the model's vals
+                    if "e" not in cfg:
+                        v[0] = ""
+                    if "t" not in cfg:
+                        v[1] = ""
+                    ORACLE[(cc, t)] = tuple(v)
+        with open(opath, "w") as f:
+            for (cc, t), v in ORACLE.items():
+                f.write("%s %s %s\n" % (cc, hx(t), " ".join(x.encode("utf-8").hex() if x else "_" for x in v)))
+        return 0, ""
+
     def run_impl(lines):
-        # the pure requests and the stateful scenarios are served by two handlers (two processes)
-        pure = [l for l in lines if not l.startswith("TS ")]
-        scen = [l for l in lines if l.startswith("TS ")]
-        rc, out, err = ctx.run_main_lines("c19", pure) if pure else (0, [], "")
-        if rc != 0 or len(out) != len(pure) or not scen:
-            return rc, out, err
-        rc2, out2, err2 = ctx.run_main_lines("c19x", scen)
-        if rc2 != 0 or len(out2) != len(scen):
-            return (rc2 or 1), out + out2, err2
-        a, b = iter(out), iter(out2)
-        return 0, [next(b) if l.startswith("TS ") else next(a) for l in lines], err + err2
+        # the pure requests, the tag scenarios and the search requests are served by three handlers (one process
+        # each; the search handler one process per configuration of the rewriters)
+        groups = {}
+
+        def which(l):
+            if l.startswith("TS "):
+                return ("c19x", None)
+            if l.startswith(SEARCH):
+                return ("c19f", f_cfg_of_line(l))
+            return ("c19", None)
+        for l in lines:
+            groups.setdefault(which(l), []).append(l)
+        srch = [l for k, g in groups.items() if k[0] == "c19f" for l in g]
+        if srch:
+            rc, err = ask_oracle(srch)
+            if rc != 0:
+                return rc, [], err
+        outs, errs = {}, ""
+        for (h, cfg), g in sorted(groups.items(), key=lambda kv: (kv[0][0], kv[0][1] or "")):
+            pre = ["CFG " + cfg] if cfg else []
+            rc, out, err = ctx.run_main_lines(h, pre + g)
+            errs += err
+            if rc != 0 or len(out) != len(pre) + len(g):
+                return (rc or 1), out, err
+            outs[(h, cfg)] = iter(out[len(pre):])
+        return 0, [next(outs[which(l)]) for l in lines], errs
 
     purelib.run_pure(
         ctx, "c19", gen_cases, monitors, neighbours, nontrivial,
-        rule="parseSearchQuery on every string of length <=5 (quick) / <=7 (thorough) over {a,b,space,tab,comma,quote,colon,e-acute} with login rewriting, a sample of them without, and seeded random queries of 1..6 terms (vocabulary of plain/prefixed/upper-case/non-ASCII/invalid terms and random runes of all UTF-8 widths, 30% quoted, 10% broken quotes, 8% glued, doubled commas, unicode white space around); rewriteTag on the vocabulary and random words; normalizeTags (once and twice) on random lists with case/space/duplicate/length/non-letter/null-marker variations under maxTagCount in {1,2,3,5,16}; restrictedTagsEqual / filterRestrictedTags / stringSliceDelta / the fnd masked-namespace gate on random old/new lists against namespace sets {}, {email}, {email,tel}, {basic,x_1}, {a}, each call with its argument slices compared before/after (F, R: untouched; D: same elements); stateful scenarios TS on real 'me' and group topics above memverif with globals.immutableTagNS in {basic}, {email,tel}, {basic,email}, {tel}, {x_1,basic}, {} and maxTagCount in {16,4,6,3}: 400 hand-shaped scenarios (one ordinary + one reserved tag in every relative order in the old and the new list; rejected attempt followed by a read, by an accepted update, by unload + reload; non-owner; store failure) and seeded random scenarios of 5..12 requests aimed at the holder's current tags (34% change ordinary tags only, 18% replace / 10% drop / 10% add a reserved tag, same set, null marker, duplicates, random; raw spellings with case and white space, shuffled / ascending / descending; 6% store failure; 15% non-owner), {get tags}, unload, server-side UpdateTags, {sub new set.tags}, {acc new tags} with an authenticator adding a reserved tag; after EVERY request the reply, the stored row and the loaded topic's tags of every holder are compared with the model and the laws are evaluated",
+        rule="parseSearchQuery on every string of length <=5 (quick) / <=7 (thorough) over {a,b,space,tab,comma,quote,colon,e-acute} with login rewriting, a sample of them without, and seeded random queries of 1..6 terms (vocabulary of plain/prefixed/upper-case/non-ASCII/invalid terms and random runes of all UTF-8 widths, 30% quoted, 10% broken quotes, 8% glued, doubled commas, unicode white space around); rewriteTag on the vocabulary and random words; normalizeTags (once and twice) on random lists with case/space/duplicate/length/non-letter/null-marker variations under maxTagCount in {1,2,3,5,16}; restrictedTagsEqual / filterRestrictedTags / stringSliceDelta / the fnd masked-namespace gate on random old/new lists against namespace sets {}, {email}, {email,tel}, {basic,x_1}, {a}, each call with its argument slices compared before/after (F, R: untouched; D: same elements); stateful scenarios TS on real 'me' and group topics above memverif with globals.immutableTagNS in {basic}, {email,tel}, {basic,email}, {tel}, {x_1,basic}, {} and maxTagCount in {16,4,6,3}: 400 hand-shaped scenarios (one ordinary + one reserved tag in every relative order in the old and the new list; rejected attempt followed by a read, by an accepted update, by unload + reload; non-owner; store failure) and seeded random scenarios of 5..12 requests aimed at the holder's current tags (34% change ordinary tags only, 18% replace / 10% drop / 10% add a reserved tag, same set, null marker, duplicates, random; raw spellings with case and white space, shuffled / ascending / descending; 6% store failure; 15% non-owner), {get tags}, unload, server-side UpdateTags, {sub new set.tags}, {acc new tags} with an authenticator adding a reserved tag; after EVERY request the reply, the stored row and the loaded topic's tags of every holder are compared with the model and the laws are evaluated; SEARCH layer (handler c19f: validators email + tel and the basic authenticator configured with add_to_tags, country codes US / DE / none): rewriteTag (WR) on a vocabulary of plain / e-mail / national digit-only and dotted phone / +phone / login / reserved / junk terms x country x login rewriting plus random digit strings and words; parseSearchQuery (QR) on every ordered pair of one term of each of 10 kinds (plain, e-mail, digits-only phone, +phone, login, quoted, masked-own, masked-foreign, reserved, junk) joined by AND and by OR, and random 1..4-term queries; the vocabulary and a sample of the pairs again in two more driver processes where a rewriter is NOT configured to index (tel add_to_tags off; email and basic add_to_tags off: law rewritten-only-when-configured); whole searches (FS) on a real fnd topic above memverif whose FindUsers / FindTopics record their arguments: 60 sampled (quick) / all 180 hand-shaped scenarios (a masked own / foreign / quoted-foreign term next to a term of every kind, AND / OR / comma-space, first / second, as public or private query, ordinary or root session, topic tags empty then the user's) + the queries of the seeded demonstrations + seeded random scenarios of 2..5 query rounds ({set desc public|private|both}, {get sub} from the same / another / the root session, null marker, unload, topic tags assigned) against masked namespaces {org}, {org,dept}, {tel}, {email,tel}, {basic}, {} with 3..6 candidate accounts / topics (60% active, suspended, deleted) carrying the rewritten forms; after EVERY request the reply, the recorded store arguments, the topic's tags and the public / private queries it holds are compared with the model and the search laws are evaluated",
         trusted=["harness/overlay/server/zz_verif_c19_test.go (calls parseSearchQuery, rewriteTag, normalizeTags, filterRestrictedTags, restrictedTagsEqual, stringSliceDelta of package main; installs one fake validator and one fake authenticator so that rewriting is deterministic; request G restates the two-line gate expression of topic.go:2434-2442)",
                  "harness/runner/r_c19.ml: UTF-8 <-> rune list conversion (Go range-loop decoding), unicode tables of the Go toolchain instantiate the Section variables lower/is_letter/is_digit/is_number; their hypotheses are checked on all 0x110000 code points by the driver request UH on every run",
                  "harness/overlay/server/zz_verif_c19x_test.go (scenario driver: real hub / topics / sessions / store mappers above memverif; sessions are attached on demand before a {set}/{get}; unload = {leave} of every session + the hub.unreg message of the idle timer; server-side tag change = store.Users.UpdateTags while the topic is not loaded; fake authenticator 'verifx' whose AddRecord appends the scenario's tags to rec.Tags as auth/basic does; the token authenticator is initialised with a fixed key; one failing adapter call injected through memverif.SetFault)",
                  "harness/overlay/server/db/memverif (store contract modelled from db/mysql/adapter.go: UserUpdate/TopicUpdate replace the row's tags and refuse duplicates, UserUpdateTags returns the tags ordered)",
                  "tools/props/c19.py: python restatement of QuerySpec.denote / well_formed and of the tag laws, evaluated on the implementation's answers",
                  "byte order of valid UTF-8 strings equals code point order (checked by UH); input strings are valid UTF-8",
-                 "the execution path of topic.go (fnd query -> parseSearchQuery -> gate -> store.Users.FindSubs with activeOnly = authLvl != root) is read, not run, by this check"],
+                 "harness/overlay/server/zz_verif_c19fnd_test.go (search driver: globals.validators = {email, tel: add_to_tags}, auth/basic initialised with add_to_tags, globals.maskedTagNS per scenario, sess.countryCode assigned directly; request O asks each validator's PreCheck and each authenticator's AsTag DIRECTLY - these answers instantiate the model's Section variables vals / auths in the runner (file VERIF_C19ORACLE) and the monitor's reference, so the libraries behind them (net/mail, nyaruka/phonenumbers, the login regexp) are oracles, not modelled; request t assigns Topic.tags of the loaded fnd topic from the user's row, which no client request does at HEAD (initTopicFnd leaves it empty) - it exercises the gate with own tags present; root session = a session of the same user with authLvl root)",
+                 "harness/overlay/server/db/memverif FindUsers / FindTopics (store contract modelled from db/mysql/adapter.go 2352-2533: a row matches when it has one of the tags and one of every non-empty required group; activeOnly keeps state = OK; the caller is skipped among users) and zz_find_c19.go (argument log); the SQL of the real adapters is not executed",
+                 "candidate rows are at most 8 (below the adapter's result limit); result ORDER is not compared (sets of ids)",
+                 "no plugin is configured (pluginFind returns the query unchanged); fnd.public / private are strings"],
         run_impl=run_impl)
